@@ -989,6 +989,184 @@ C20QuoteUser(pre, e, post) ==
      /\ Sub("same_total_fee", u.fee \doteq SumFee(e.swaps[1]))
      /\ Sub("bound_on_safe_side", IF e.args.exactIn THEN u.bound \preceq u.out ELSE u["in"] \preceq u.bound)
 
+(* Situation coverage.  A predicate of the trace specification says nothing about an execution in which
+   its antecedent never holds.  The catalogue below names the situations the predicates are about (where a
+   swap stops, what a liquidity change does to its bounding ticks, which reference rule an adaptive-fee
+   swap applies, ...).  While validating a trace TLC tallies, per event, which of them occurred (register 9);
+   the runner sums the tallies over all traces of a check, reports them in the evidence, and treats a check
+   whose plan lists a situation that never occurred as vacuous (tool error, never a pass).           *)
+Sit(name, c) == IF c THEN {name} ELSE {}
+OtherPos(s, p, k) == {y \in PosOf(s, p) : y # k}
+TicksOnPrice(s, p) == {t \in InitTicksOf(s, p) : P(s, t) \doteq s.pool[p].sqrtPrice}
+ArrIdx(t, sp) == t \div (sp * 88)      \* floor division: index of the 88-slot array holding tick t
+
+SwapSituations(pre, e, post) ==
+  LET sw  == e.swaps[1]
+      p   == APool(e)
+      a   == e.args
+      n   == Len(sw.steps)
+      cr  == {i \in DOMAIN sw.steps : "crossed" \in DOMAIN sw.steps[i]}
+      paid == 0 -- Delta(pre, post, InAcct(e))
+      got  == Delta(pre, post, OutAcct(e))
+      used == IF a.exactIn THEN paid ELSE got
+      fgIn0 == IF a.aToB THEN pre.pool[p].fgA ELSE pre.pool[p].fgB
+      fgIn1 == IF a.aToB THEN post.pool[p].fgA ELSE post.pool[p].fgB
+      sp_  == pre.pool[p].spacing
+      cIn  == TfCfg(pre, IF a.aToB THEN pre.pool[p].mintA ELSE pre.pool[p].mintB, e.epoch)
+      cOut == TfCfg(pre, IF a.aToB THEN pre.pool[p].mintB ELSE pre.pool[p].mintA, e.epoch)
+  IN UNION {
+     Sit("swap.a_to_b", a.aToB), Sit("swap.b_to_a", ~a.aToB), Sit("swap.exact_in", a.exactIn), Sit("swap.exact_out", ~a.exactIn),
+     Sit("swap.v1", e.name = "swap"), Sit("swap.v2", e.name = "swap_v2"),
+     Sit("swap.steps>=2", n >= 2), Sit("swap.steps>=4", n >= 4),
+     Sit("swap.crosses_a_tick", cr # {}), Sit("swap.crosses>=3_ticks", Cardinality(cr) >= 3),
+     Sit("swap.crosses_a_tick.a_to_b", cr # {} /\ a.aToB), Sit("swap.crosses_a_tick.b_to_a", cr # {} /\ ~a.aToB),
+     Sit("swap.crosses_ticks_of_two_arrays", \E i, j \in cr : ArrIdx(sw.steps[i].crossed.tick, sp_) # ArrIdx(sw.steps[j].crossed.tick, sp_)),
+     Sit("swap.crossed_tick_has_zero_net", \E i \in cr : sw.steps[i].crossed.net \doteq 0),
+     Sit("swap.step_with_zero_liquidity", \E i \in DOMAIN sw.steps : sw.steps[i].liq \doteq 0),
+     Sit("swap.liquidity_drops_to_zero", post.pool[p].liq \doteq 0 /\ ~(pre.pool[p].liq \doteq 0)),
+     Sit("swap.explicit_limit", ~(a.limit \doteq 0)),
+     Sit("swap.uses_less_than_specified", used \prec a.amount),
+     Sit("swap.price_unmoved", post.pool[p].sqrtPrice \doteq pre.pool[p].sqrtPrice),
+     Sit("swap.starts_on_initialized_tick", TicksOnPrice(pre, p) # {}),
+     Sit("swap.starts_on_initialized_tick_shifted", \E t \in TicksOnPrice(pre, p) : pre.pool[p].tick = t - 1),
+     Sit("swap.starts_on_initialized_tick_unshifted", \E t \in TicksOnPrice(pre, p) : pre.pool[p].tick = t),
+     Sit("swap.ends_on_initialized_tick", TicksOnPrice(post, p) # {}),
+     Sit("swap.ends_on_initialized_tick.a_to_b", a.aToB /\ TicksOnPrice(post, p) # {}),
+     Sit("swap.ends_on_initialized_tick.b_to_a", ~a.aToB /\ TicksOnPrice(post, p) # {}),
+     Sit("swap.ends_at_protocol_price_bound", post.pool[p].sqrtPrice \doteq MinSqrtPrice \/ post.pool[p].sqrtPrice \doteq MaxSqrtPrice),
+     Sit("swap.fee_growth_wraps_around", fgIn1 \prec fgIn0),
+     Sit("swap.threshold_equals_realised", IF a.exactIn THEN a.threshold \doteq got ELSE a.threshold \doteq paid),
+     Sit("swap.step_stops_short_of_target", \E i \in DOMAIN sw.steps : ~(sw.steps[i].p1 \doteq sw.steps[i].btarget)),
+     Sit("swap.budget_exhausted_exactly_at_target", n >= 1 /\ sw.steps[n].p1 \doteq sw.steps[n].btarget /\ sw.steps[n].remaining1 \doteq 0),
+     Sit("swap.step_takes_fee_only", \E i \in DOMAIN sw.steps : sw.steps[i]["in"] \doteq 0 /\ ~(sw.steps[i].fee \doteq 0)),
+     Sit("swap.step_pays_nothing", \E i \in DOMAIN sw.steps : sw.steps[i].out \doteq 0 /\ ~(sw.steps[i]["in"] \doteq 0)),
+     Sit("swap.protocol_rate_zero", pre.pool[p].protoRate = 0), Sit("swap.fee_rate_zero", pre.pool[p].feeRate = 0),
+     Sit("swap.input_mint_has_transfer_fee", cIn.bps > 0), Sit("swap.output_mint_has_transfer_fee", cOut.bps > 0),
+     Sit("swap.adaptive_fee_pool", p \in DOMAIN pre.oracle),
+     Sit("swap.liquidity>=2^96", BPow2(96) \preceq pre.pool[p].liq),
+     Sit("swap.spacing_1", sp_ = 1), Sit("swap.full_range_only_pool", sp_ >= 32768) }
+
+AfSituations(pre, e, post) ==
+  LET sw  == e.swaps[1]
+      p   == APool(e)
+      o   == pre.oracle[p]
+      o2  == post.oracle[p]
+      age == e.now -- o.refTs
+      el  == e.now -- BMax(o.refTs, o.majorTs)
+      st_ == pre.pool[p].feeRate
+  IN UNION {
+     Sit("af.reference_reset_after_an_hour", 3600 \prec age),
+     Sit("af.reference_kept_inside_filter_period", ~(3600 \prec age) /\ el \prec o.filter),
+     Sit("af.reference_decayed", ~(3600 \prec age) /\ ~(el \prec o.filter) /\ el \prec o.decay),
+     Sit("af.reference_decayed_nonzero", ~(3600 \prec age) /\ ~(el \prec o.filter) /\ el \prec o.decay /\ ~(o2.volRef \doteq 0)),
+     Sit("af.reference_reset_beyond_decay", ~(3600 \prec age) /\ ~(el \prec o.decay)),
+     Sit("af.elapsed_equals_filter_period", el \doteq o.filter), Sit("af.elapsed_equals_decay_period", el \doteq o.decay),
+     Sit("af.accumulator_at_maximum", o2.volAcc \doteq o.maxAcc /\ ~(o.maxAcc \doteq 0)),
+     Sit("af.rate_at_hard_limit", \E i \in DOMAIN sw.steps : sw.steps[i].rate \doteq HardLimit),
+     Sit("af.rate_above_static", \E i \in DOMAIN sw.steps : st_ \prec sw.steps[i].rate),
+     Sit("af.skipped_step", \E i \in DOMAIN sw.steps : sw.steps[i].skip),
+     Sit("af.step_spans_several_groups", \E i \in DOMAIN sw.steps : sw.steps[i].moved /\ sw.steps[i].gmin < sw.steps[i].gmax),
+     Sit("af.swap_spans_several_groups", sw.startGroup # sw.endGroup),
+     Sit("af.negative_tick_group", sw.startGroup < 0 \/ sw.endGroup < 0),
+     Sit("af.ends_on_group_boundary", sw.endOnBoundary),
+     Sit("af.major_swap", ~(o2.majorTs \doteq o.majorTs)),
+     Sit("af.control_factor_zero", o.factor = 0),
+     Sit("af.group_size_below_spacing", o.groupSize < pre.pool[p].spacing) }
+
+LiqNames == {"increase_liquidity", "increase_liquidity_v2", "decrease_liquidity", "decrease_liquidity_v2",
+             "increase_liquidity_by_token_amounts_v2", "reposition_liquidity_v2"}
+LiqSituations(pre, e, post) ==
+  LET k    == APos(e)
+      x    == pre.pos[k]
+      y    == post.pos[k]
+      p    == x.pool
+      pool == pre.pool[p]
+      oth  == OtherPos(pre, p, k)
+      tLo0 == TickOf(pre, p, y.lo)   tLo1 == TickOf(post, p, y.lo)
+      tUp0 == TickOf(pre, p, y.up)   tUp1 == TickOf(post, p, y.up)
+      oLo0 == TickOf(pre, p, x.lo)   oLo1 == TickOf(post, p, x.lo)
+      oUp0 == TickOf(pre, p, x.up)   oUp1 == TickOf(post, p, x.up)
+      up_  == x.liq \prec y.liq
+      dn_  == y.liq \prec x.liq
+  IN UNION {
+     Sit("liq.price_below_range", pool.tick < y.lo), Sit("liq.price_in_range", y.lo <= pool.tick /\ pool.tick < y.up), Sit("liq.price_above_range", y.up <= pool.tick),
+     Sit("liq.price_exactly_on_lower_bound", pool.sqrtPrice \doteq P(post, y.lo)),
+     Sit("liq.price_exactly_on_lower_bound_shifted", pool.sqrtPrice \doteq P(post, y.lo) /\ pool.tick = y.lo - 1),
+     Sit("liq.price_exactly_on_upper_bound", pool.sqrtPrice \doteq P(post, y.up)),
+     Sit("liq.price_exactly_on_upper_bound_shifted", pool.sqrtPrice \doteq P(post, y.up) /\ pool.tick = y.up - 1),
+     Sit("liq.initializes_a_tick", (~tLo0.init /\ tLo1.init) \/ (~tUp0.init /\ tUp1.init)),
+     Sit("liq.initializes_a_tick_at_or_below_price", (~tLo0.init /\ tLo1.init /\ y.lo <= pool.tick) \/ (~tUp0.init /\ tUp1.init /\ y.up <= pool.tick)),
+     Sit("liq.deinitializes_a_tick", (oLo0.init /\ ~oLo1.init) \/ (oUp0.init /\ ~oUp1.init)),
+     Sit("liq.bound_shared_with_other_position", \E j \in oth : {pre.pos[j].lo, pre.pos[j].up} \cap {y.lo, y.up} # {}),
+     Sit("liq.lower_is_others_upper", \E j \in oth : pre.pos[j].up = y.lo), Sit("liq.upper_is_others_lower", \E j \in oth : pre.pos[j].lo = y.up),
+     Sit("liq.same_range_as_other_position", \E j \in oth : pre.pos[j].lo = y.lo /\ pre.pos[j].up = y.up /\ ~(pre.pos[j].liq \doteq 0)),
+     Sit("liq.tick_net_becomes_zero_but_stays_initialized", (tLo1.init /\ tLo1.net \doteq 0) \/ (tUp1.init /\ tUp1.net \doteq 0)),
+     Sit("liq.decrease_to_zero", dn_ /\ y.liq \doteq 0), Sit("liq.partial_decrease", dn_ /\ ~(y.liq \doteq 0)),
+     Sit("liq.first_deposit", up_ /\ x.liq \doteq 0), Sit("liq.top_up", up_ /\ ~(x.liq \doteq 0)),
+     Sit("liq.bound_at_min_or_max_tick", y.lo <= -443636 + pool.spacing \/ y.up >= 443636 - pool.spacing),
+     Sit("liq.position_liquidity>=2^96", BPow2(96) \preceq y.liq),
+     Sit("liq.credits_fees", ~(y.owedA \doteq x.owedA) \/ ~(y.owedB \doteq x.owedB)),
+     Sit("liq.credits_rewards", \E i \in 1..3 : ~(y.rw[i].owed \doteq x.rw[i].owed)),
+     Sit("liq.checkpoint_behind_wrapped_accumulator", FeeInside(pre, p, x, TRUE) \prec x.cpA \/ FeeInside(pre, p, x, FALSE) \prec x.cpB),
+     Sit("liq.fee_credit_dropped_by_overflow", ~(x.liq \doteq 0) /\ (WrapMod \preceq (x.liq \otimes WSub(FeeInside(pre, p, x, TRUE), x.cpA)) \/ WrapMod \preceq (x.liq \otimes WSub(FeeInside(pre, p, x, FALSE), x.cpB)))),
+     Sit("liq.dynamic_tick_array", tLo1.init /\ tLo1.dyn), Sit("liq.fixed_tick_array", tLo1.init /\ ~tLo1.dyn),
+     Sit("liq.bounds_in_one_array", ArrIdx(y.lo, pool.spacing) = ArrIdx(y.up, pool.spacing)),
+     Sit("liq.mixed_array_encodings", tLo1.init /\ tUp1.init /\ tLo1.dyn # tUp1.dyn),
+     Sit("liq.transfer_fee_mint", ~NoTransferFee(pre, p)),
+     Sit("liq.range_changed", ~(x.lo = y.lo /\ x.up = y.up)),
+     Sit("liq.new_range_overlaps_old", ~(x.lo = y.lo /\ x.up = y.up) /\ y.lo < x.up /\ x.lo < y.up),
+     Sit("liq.new_range_shares_bound_with_old", ~(x.lo = y.lo /\ x.up = y.up) /\ {x.lo, x.up} \cap {y.lo, y.up} # {}) }
+
+RewardSituations(pre, e, post) ==
+  LET p == PoolOfEvent(pre, e) IN
+  IF p \notin DOMAIN pre.pool \/ p \notin DOMAIN post.pool \/ e.name \notin UpdatingNames THEN {}
+  ELSE LET pl == pre.pool[p] dt == e.now -- pl.rewardTs
+           ninit == Cardinality({i \in 1..3 : pl.rewards[i].init}) IN
+       UNION {
+         Sit("reward.interval_accrues", \E i \in 1..3 : Accrues(pl, i, e.now) /\ ~(pl.rewards[i].emissions \doteq 0)),
+         Sit("reward.interval_rounds_to_zero_growth", \E i \in 1..3 : Accrues(pl, i, e.now) /\ ~(pl.rewards[i].emissions \doteq 0) /\ post.pool[p].rewards[i].growth \doteq pl.rewards[i].growth),
+         Sit("reward.zero_elapsed_time", ninit > 0 /\ dt \doteq 0),
+         Sit("reward.interval_with_zero_liquidity", ninit > 0 /\ ~(dt \doteq 0) /\ pl.liq \doteq 0 /\ \E i \in 1..3 : pl.rewards[i].init /\ ~(pl.rewards[i].emissions \doteq 0)),
+         Sit("reward.interval_dropped_by_overflow", \E i \in 1..3 : pl.rewards[i].init /\ ~(pl.liq \doteq 0) /\ WrapMod \preceq (dt \otimes pl.rewards[i].emissions)),
+         Sit("reward.growth_wraps_around", \E i \in 1..3 : post.pool[p].rewards[i].growth \prec pl.rewards[i].growth),
+         Sit("reward.two_or_more_rewards", ninit >= 2), Sit("reward.three_rewards", ninit = 3),
+         Sit("reward.emissions_changed_after_elapsed_time", e.name \in {"set_reward_emissions", "set_reward_emissions_v2"} /\ ~(dt \doteq 0) /\ ~(pl.liq \doteq 0)),
+         Sit("reward.swap_crosses_tick_with_rewards", IsSwapName(e.name) /\ ninit > 0 /\ Len(e.swaps) = 1 /\ \E i \in DOMAIN e.swaps[1].steps : "crossed" \in DOMAIN e.swaps[1].steps[i]) }
+
+OtherSituations(pre, e, post) ==
+  UNION {
+    Sit("collect_reward.vault_short", e.name \in {"collect_reward", "collect_reward_v2"} /\ APos(e) \in DOMAIN pre.pos /\
+          Bal(pre, e.slots.reward_vault.id) \prec pre.pos[APos(e)].rw[e.args.index + 1].owed),
+    Sit("collect_reward.nonzero", e.name \in {"collect_reward", "collect_reward_v2"} /\ APos(e) \in DOMAIN pre.pos /\ ~(pre.pos[APos(e)].rw[e.args.index + 1].owed \doteq 0)),
+    Sit("collect_reward.index>=1", e.name \in {"collect_reward", "collect_reward_v2"} /\ e.args.index >= 1),
+    Sit("collect_fees.nonzero", e.name \in {"collect_fees", "collect_fees_v2"} /\ APos(e) \in DOMAIN pre.pos /\ (~(pre.pos[APos(e)].owedA \doteq 0) \/ ~(pre.pos[APos(e)].owedB \doteq 0))),
+    Sit("collect_fees.position_without_liquidity", e.name \in {"collect_fees", "collect_fees_v2"} /\ APos(e) \in DOMAIN pre.pos /\ pre.pos[APos(e)].liq \doteq 0),
+    Sit("collect_protocol_fees.nonzero", e.name \in {"collect_protocol_fees", "collect_protocol_fees_v2"} /\ (~(pre.pool[APool(e)].protoA \doteq 0) \/ ~(pre.pool[APool(e)].protoB \doteq 0))),
+    Sit("update_fees.position_out_of_range", e.name = "update_fees_and_rewards" /\ APos(e) \in DOMAIN pre.pos /\ ~InRange(pre.pool[pre.pos[APos(e)].pool], pre.pos[APos(e)])),
+    Sit("update_fees.credits_fees", e.name = "update_fees_and_rewards" /\ APos(e) \in DOMAIN pre.pos /\ APos(e) \in DOMAIN post.pos /\
+          (~(post.pos[APos(e)].owedA \doteq pre.pos[APos(e)].owedA) \/ ~(post.pos[APos(e)].owedB \doteq pre.pos[APos(e)].owedB))),
+    Sit("twohop.same_direction", e.name \in {"two_hop_swap", "two_hop_swap_v2"} /\ e.args.aToB1 = e.args.aToB2),
+    Sit("twohop.mixed_direction", e.name \in {"two_hop_swap", "two_hop_swap_v2"} /\ e.args.aToB1 # e.args.aToB2),
+    Sit("twohop.exact_out", e.name \in {"two_hop_swap", "two_hop_swap_v2"} /\ ~e.args.exactIn),
+    Sit("twohop.explicit_limit", e.name \in {"two_hop_swap", "two_hop_swap_v2"} /\ (~(e.args.limit1 \doteq 0) \/ ~(e.args.limit2 \doteq 0))),
+    Sit("twohop.leg_crosses_a_tick", e.name \in {"two_hop_swap", "two_hop_swap_v2"} /\ \E k \in DOMAIN e.swaps : \E i \in DOMAIN e.swaps[k].steps : "crossed" \in DOMAIN e.swaps[k].steps[i]),
+    Sit("probe.succeeded", e.probe) }
+
+Situations(pre, e, post) ==
+  UNION {
+    {"ix." \o e.name},
+    IF IsSwapName(e.name) /\ Len(e.swaps) = 1 /\ e.swaps[1].done THEN SwapSituations(pre, e, post) ELSE {},
+    IF IsSwapName(e.name) /\ Len(e.swaps) = 1 /\ e.swaps[1].done /\ APool(e) \in DOMAIN pre.oracle /\ APool(e) \in DOMAIN post.oracle THEN AfSituations(pre, e, post) ELSE {},
+    IF e.name \in LiqNames /\ Has(e.args, "pos") /\ APos(e) \in DOMAIN pre.pos /\ APos(e) \in DOMAIN post.pos THEN LiqSituations(pre, e, post) ELSE {},
+    RewardSituations(pre, e, post),
+    OtherSituations(pre, e, post) }
+FailSituations(pre, e) == {"fail." \o e.name, "err." \o ToString(e.err)} \cup Sit("fail.probe", e.probe) \cup Sit("fail.panic", e.panic)
+
+Tally(S) ==
+  LET f == TLCGet(9) IN
+  TLCSet(9, [n \in DOMAIN f \cup S |-> (IF n \in DOMAIN f THEN f[n] ELSE 0) + (IF n \in S THEN 1 ELSE 0)])
+Cover(S) == IF "COV" \in Active THEN Tally(S) ELSE TRUE
+
 (* the per-event transition *)
 IxOK(pre, e, post) ==
   /\ Chk("C20", "sdk_quote", C20Quote(e))
@@ -1052,7 +1230,7 @@ IxFailed(pre, e) ==
   /\ Chk("ANY", "must_succeed", ~e.must)
   /\ Chk("ANY", "atomic", EmptyDiff(e.diff))
 
-Init == l = 1 /\ st = [now |-> 0] /\ gh = [seg |-> <<>>, led |-> <<>>, rled |-> <<>>] /\ TLCSet(7, <<"none", "none">>) /\ TLCSet(8, "none")
+Init == l = 1 /\ st = [now |-> 0] /\ gh = [seg |-> <<>>, led |-> <<>>, rled |-> <<>>] /\ TLCSet(7, <<"none", "none">>) /\ TLCSet(8, "none") /\ TLCSet(9, <<>>)
 
 Next ==
   /\ l <= Len(Rec)
@@ -1075,6 +1253,7 @@ Next ==
             IF e.ok
             THEN LET post == Apply(pre, e) IN
                  /\ IxOK(pre, e, post)
+                 /\ Cover(Situations(pre, e, post))
                  /\ IF e.probe
                     THEN st' = [st EXCEPT !.prices = MergeFn(st.prices, e.prices)] /\ gh' = gh
                     ELSE /\ st' = post
@@ -1084,6 +1263,7 @@ Next ==
                          /\ Chk("C07", "fee_ledger", C07Ledger(gh'.led, post))
                          /\ Chk("C11", "reward_ledger", C11Ledger(gh'.rled, post))
             ELSE /\ IxFailed(pre, e)
+                 /\ Cover(FailSituations(pre, e))
                  /\ st' = [st EXCEPT !.prices = MergeFn(st.prices, e.prices)]
                  /\ gh' = gh
 
@@ -1091,7 +1271,7 @@ Spec == Init /\ [][Next]_vars
 
 Accepted ==
   LET d == TLCGet("stats").diameter IN
-  IF d - 1 = Len(Rec) THEN TRUE
+  IF d - 1 = Len(Rec) THEN ("COV" \in Active => PrintT(<<"SITUATIONS", ToJson(TLCGet(9))>>))
   ELSE /\ PrintT(<<"REJECTED", d, TLCGet(7)[1], TLCGet(7)[2], TLCGet(8)>>)
        /\ FALSE
 =============================================================================
